@@ -12,12 +12,16 @@ ID = 'C35'
 LEVEL = 'exploration'
 RULE = ('SQLite part: a case = initial values of 1-2 rows + 2-3 session scripts (session options default / immediate / '
         'serializable / optimistic=False; ops: 8 kinds of locking lookup, plain fetch, read attribute into a register, write '
-        'attribute := register read from the same row + constant, or constant; flush; end commit/rollback) + a schedule (one '
+        'attribute := register read from the same row in the same transaction + constant, or constant; flush; commit() in the '
+        'middle of the db_session; leaving and re-entering db_session on the same Database; end commit/rollback; three '
+        'generators: free scripts, lock-read-rewrite against an early-reading writer, and two-transaction lockers that lock / '
+        'read / rewrite the same row again after their intermediate commit while another session changes it) + a schedule (one '
         'choice among runnable actors per operation) + a layout (Database per actor: lock conflicts fail with "database is '
         'locked"; one shared Database: lock conflicts wait on the provider lock). Oracle: (1) from the step in which a session '
-        'locked a row (or, serializable, first touched it) until that session ends, no step of another session changes the '
-        'committed row; only successful commits change the database; (2) the final database equals the result of SOME serial '
-        'order of the committed sessions (all <= 3! orders, reference interpreter over the effective reads/writes); (3) no '
+        'locked a row (or, serializable, first touched it) until that TRANSACTION ends (commit, rollback, failure), no step of '
+        'another session changes the committed row; only successful commits change the database; (2) the final database equals the result of SOME serial '
+        'order of the committed transactions (all orders that keep each actor\'s own order, reference interpreter over the '
+        'effective reads/writes); (3) no '
         'deadlock: a blocked session becomes runnable once the others have finished; a locking lookup never dies of an internal '
         'error. Non-trivial = a row was protected by one session while another live session wrote it; distinct by case hash. '
         'PostgreSQL part: complete grid of 10 query shapes x lock/no lock x nowait x skip_locked x 4 session kinds; each case '
@@ -28,7 +32,7 @@ ASSUMPTIONS = ['SQLite live (file database, timeout=0); PostgreSQL only as SQL t
                'a plain sqlite3 connection in autocommit mode sees exactly the committed state',
                'serial executions are computed by a 20-line reference interpreter of read/write effects (vlib/c35_lib.serial_results)']
 SHARDS = {'quick': 4, 'thorough': 16}
-MIN_EVALS = {'quick': 1200, 'thorough': 20000}
+MIN_EVALS = {'quick': 3000, 'thorough': 20000}
 CLASS_FLOORS = {'contended': 0.12, 'two_committed': 0.15, 'for_update': 0.35}
 EXCLUSIONS = {}
 
@@ -60,7 +64,7 @@ def _strategies():
     write = st.tuples(st.just('write'), obj, attr, st.integers(0, 3), const).map(list)
     fetch = st.tuples(st.just('fetch'), obj).map(list)
     flush = st.just(['flush'])
-    body = st.one_of(read, read, read, write, write, write, fetch, flush, lock)
+    body = st.one_of(read, read, read, write, write, write, fetch, flush, lock, read, write, st.sampled_from([['commit'], ['restart']]))
     rows = st.lists(st.lists(st.integers(0, 9), min_size=3, max_size=3), min_size=1, max_size=2)
     layout = st.sampled_from(['multi', 'multi', 'shared'])
     schedule = st.lists(st.integers(0, 2), min_size=12, max_size=30)
@@ -85,7 +89,7 @@ def case_strategy():
             sess = draw(st.sampled_from([{}, {}, {}, {'optimistic': False}, {'optimistic': False}, {'serializable': True},
                                          {'immediate': True}]))
             actors.append({'session': sess, 'ops': draw(st.lists(body, min_size=2, max_size=6)), 'end': draw(end)})
-        return {'layout': draw(layout), 'rows': draw(rows), 'actors': actors, 'schedule': draw(schedule)}
+        return _cap_commits({'layout': draw(layout), 'rows': draw(rows), 'actors': actors, 'schedule': draw(schedule)})
     return build()
 
 
@@ -129,7 +133,55 @@ def race_strategy():
             sch[pos] = val
         if draw(st.integers(0, 4)) == 0:
             sch = draw(schedule)
-        return {'layout': draw(layout), 'rows': draw(rows), 'actors': actors, 'schedule': sch}
+        return _cap_commits({'layout': draw(layout), 'rows': draw(rows), 'actors': actors, 'schedule': sch})
+    return build()
+
+
+def _cap_commits(case):
+    """at most two intermediate commits per actor (bounds the number of serial orders the oracle enumerates)"""
+    for a in case['actors']:
+        seen, ops = 0, []
+        for op in a['ops']:
+            if op[0] in ('commit', 'restart'):
+                seen += 1
+                if seen > 2:
+                    continue
+            ops.append(op)
+        a['ops'] = ops or [['fetch', 0]]
+    return case
+
+
+def relock_strategy():
+    """a locking session works on a row in two transactions (commit() mid-session, or leaving and re-entering db_session),
+    locking / reading / rewriting the row again in the second one, while another session changes the same row in between"""
+    st, lock, read, write, body, rows, layout, schedule, end = _strategies()
+
+    @st.composite
+    def build(draw):
+        o = draw(st.sampled_from([0, 0, 1]))
+        a = draw(st.integers(0, 2))
+        nhow = len(c35_lib.LOCK_HOWS)
+        sep = [draw(st.sampled_from(['commit', 'commit', 'restart']))]
+        first = [['lock', o, draw(st.integers(0, nhow - 1))]] + draw(st.sampled_from([
+            [['read', o, a, 0], ['write', o, a, 0, draw(st.integers(1, 30))]], [['read', o, a, 0]], []]))
+        second = draw(st.sampled_from([[['lock', o, draw(st.integers(0, nhow - 1))]], [['lock', o, draw(st.integers(0, nhow - 1))]], []])) \
+            + [['read', o, a, 0], ['write', o, a, 0, draw(st.integers(1, 30))]]
+        l_ops = first + [sep] + second
+        locker = {'session': draw(st.sampled_from([{}, {}, {'immediate': True}])), 'ops': l_ops, 'end': 'commit'}
+        w_ops = draw(st.sampled_from([[], [['lock', o, draw(st.integers(0, nhow - 1))]]])) \
+            + [['read', o, a, 1], ['write', o, a, 1, draw(st.integers(1, 30))]]
+        writer = {'session': draw(st.sampled_from([{}, {}, {'optimistic': False}])), 'ops': w_ops, 'end': 'commit'}
+        actors = [locker, writer]
+        k = len(first) + 1
+        sch = [0] * k + [1] * (len(w_ops) + 1) + [0] * (len(second) + 1)
+        if draw(st.integers(0, 3)) == 0:
+            actors.append({'session': draw(st.sampled_from([{}, {'optimistic': False}])),
+                           'ops': draw(st.lists(body, min_size=1, max_size=3)), 'end': draw(end)})
+            for pos in draw(st.lists(st.integers(0, len(sch)), max_size=4)):
+                sch.insert(pos, 2)
+        for pos, val in draw(st.lists(st.tuples(st.integers(0, len(sch) - 1), st.integers(0, 2)), max_size=2)):
+            sch[pos] = val
+        return _cap_commits({'layout': draw(layout), 'rows': draw(rows), 'actors': actors, 'schedule': sch})
     return build()
 
 
@@ -170,9 +222,11 @@ def run(ctx):
         if verdict.message is not None:
             ctx.fail(case, verdict.message)
     try:
-        ctx.run_test(t, {'case': case_strategy()}, max_examples=ctx.scale(200, 900), name='schedules')
+        ctx.run_test(t, {'case': case_strategy()}, max_examples=ctx.scale(400, 800), name='schedules')
         if ctx.violation is None:
-            ctx.run_test(t, {'case': race_strategy()}, max_examples=ctx.scale(250, 1100), name='races')
+            ctx.run_test(t, {'case': race_strategy()}, max_examples=ctx.scale(400, 900), name='races')
+        if ctx.violation is None:
+            ctx.run_test(t, {'case': relock_strategy()}, max_examples=ctx.scale(250, 400), name='relock')
     finally:
         env.close()
 
